@@ -394,3 +394,9 @@ func ReplayMain(t *testing.T) {
 		t.Fatalf("REPLAY-VIOLATION %v", err)
 	}
 }
+
+// WriteViolation saves a failing case in the replay-file format and returns its path (for tests that drive
+// rapid themselves).
+func WriteViolation(property, machine string, cs interface{}, err error) string {
+	return writeViolation(property, machine, cs, err)
+}
